@@ -11,13 +11,16 @@
 (* "inside" | "refused" | "opaque" | "escape" (then region = target class).   *)
 EXTENDS Confine, Json
 
-CONSTANT Depth
+CONSTANTS Depth,      \* longest segment sequence per kind ...
+          DeepDepth   \* ... and for the listing parameters (MarkerKinds), which are cheap to
+                      \* send and whose internal areas lie three levels below the bucket
+DepthOf(k) == IF k \in MarkerKinds THEN DeepDepth ELSE Depth
 VARIABLES kind, segs
 
 Alpha == {"n", ".", "..", ""}
 SeqsUpTo(d) == UNION {[1 .. n -> Alpha] : n \in 1 .. d}
 
-Init == kind \in Kinds /\ segs \in SeqsUpTo(Depth)
+Init == kind \in Kinds /\ segs \in SeqsUpTo(DepthOf(kind))
 Next == UNCHANGED <<kind, segs>>
 Spec == Init /\ [][Next]_<<kind, segs>>
 
@@ -85,5 +88,5 @@ Lemmas == IntendedConfined /\ CleanSane /\ AimLands /\ WellFormedAgrees /\ Escap
 Vec(k, s) == [kind |-> k, segs |-> s, up |-> Up(k, s), live |-> SetToSeq(LiveIdx(k, s)),
               land |-> Landing(k, s), aims |-> SetToSeq(Aims(k, s))]
 ASSUME EmitPlan == ndJsonSerialize("plan.ndjson", SetToSeq(Planted))
-ASSUME EmitVectors == ndJsonSerialize("vectors.ndjson", SetToSeq({Vec(k, s) : k \in Kinds, s \in SeqsUpTo(Depth)}))
+ASSUME EmitVectors == ndJsonSerialize("vectors.ndjson", SetToSeq(UNION {{Vec(k, s) : s \in SeqsUpTo(DepthOf(k))} : k \in Kinds}))
 =============================================================================
